@@ -32,8 +32,10 @@ ASSUME = ["integer + - * wrap modulo 2^width, / and % truncate toward zero, >> f
           "the exit status is compared modulo 256 (what the OS reports); a runtime fault = the events before it, then a non-empty message, exit status 1, no event after it",
           "programs whose meaning the language does not define (division by zero, MIN / -1, float->int out of range, float overflow/NaN, over-long runs) are discarded by the reference interpreter, never judged",
           "README is silent on whether the argument of a switch arm is a copy of the payload or an alias of the scrutinee (capy aliases): no generated program writes the scrutinee inside an arm, so the question is never judged",
-          "recorded capy defects are produced only by programs that opt in (each 2.5-5% of the programs; the feature names are appended to the violation signature): variant_direct, "
-          "weak_lit_errunion, selfref_literal_assign, empty_vararg_first, unused_varargs, array_arm_binding, scrutinee_write; all other programs stay away from exactly these spellings"]
+          "recorded capy defects are produced only by programs that opt in (each 2.5-4% of the programs; the feature names are appended to the violation signature): "
+          "weak_lit_errunion, empty_vararg_first, unused_varargs, array_arm_binding; all other programs stay away from exactly these spellings. variant_direct and "
+          "selfref_literal_assign were defects that are fixed: about half of the programs use those spellings now",
+          "`.try` on E!T inside a function returning ?E returns the error as a present value (README: `.try` is `switch .. { E => { return inner; } }`)"]
 
 MAX_STMTS, MAX_DEPTH, MAX_GLOBALS = 40, 6, 12
 LAYER = 4      # development only: lower layers switch off groups of constructs
@@ -208,8 +210,6 @@ def feature_tags(prog):
                 walk(s)
             walk(x.tail)
         elif isinstance(x, A.N):
-            if x.k == "wrap" and x.how in ("some", "ok", "err") and x.e.k == "wrap" and x.e.how == "v2e":
-                tags.add("variant_direct")
             if x.k == "wrap" and x.how == "ok" and x.e.k == "lit" and x.e.bare and x.e.ty[0] == "int" and (abs(x.e.val) >= (1 << 31) or x.e.val == -(1 << (X.INT_INFO[x.e.ty[1]][0] - 1))):
                 tags.add("weak_lit_errunion")
             if x.k == "switch":
@@ -231,7 +231,7 @@ def feature_tags(prog):
                 while root.k in ("field", "index", "deref"):
                     root = root.base if root.k != "deref" else root.e
                 if root.k == "var" and mentions_name(x.e, root.name) and has_literal(x.e):
-                    tags.add("selfref_literal_assign")
+                    pass      # 'selfref_literal_assign' and 'variant_direct' were capy defects, fixed since: regular constructs, no tag
             for v in x.__dict__.values():
                 walk(v)
         elif isinstance(x, (list, tuple)):
@@ -516,7 +516,18 @@ def run(tier, seed):
             vv["minimise_error"] = str(e)
         return prog, vv, text
 
-    shrunk = C.pmap(shrink, pending_min[:n_min]) + [(v["prog"], v, v["text"]) for v in pending_min[n_min:]]
+    # violations that already match a registered finding are reported as they are; only news is minimised
+    known = C.load_known()
+
+    def is_known(v):
+        feats = feature_tags(v["prog"])
+        sig = v["sig"] + ("|" + ",".join(feats) if feats else "")
+        return C.match_known("C01", {"key": v["key"], "sig": sig}, known) is not None
+
+    news = [v for v in pending_min if not is_known(v)]
+    olds = [v for v in pending_min if v not in news]
+    pending_min = news + olds
+    shrunk = C.pmap(shrink, news[:n_min]) + [(v["prog"], v, v["text"]) for v in news[n_min:] + olds]
     for v, (prog, vv, text) in zip(pending_min, shrunk):
         feats = feature_tags(prog)
         sig = v["sig"]
